@@ -3,18 +3,25 @@ from propdefs import rc, fuzz, script, W
 PROP = {
  'title': 'No remote input can crash the node or the daemon',
  'level': 'exploration',
- 'technique': 'structure-aware fuzzing of the three remote surfaces (inbound connection bytes, validly signed protocol messages with adversarial contents, control-plane requests) of a real Node + ControlServer under ASan/UBSan with a liveness probe after every case (rapidcheck tapes + libFuzzer on the same case function)',
+ 'technique': 'black-box stateful property-based testing of the real `eph serve` process (Hypothesis: generated control/transport client behaviours incl. connection resets, liveness oracle) + structure-aware fuzzing of the three remote surfaces (inbound connection bytes, validly signed protocol messages with adversarial contents, control-plane requests) of a real Node + ControlServer under ASan/UBSan with a liveness probe after every case (rapidcheck tapes + libFuzzer on the same case function)',
  'design_ref': 'DESIGN.md 5/C35',
  'level_text': 'Per case one surface: (a) identity + handshake frames with generated lengths/types/truncations on an adopted inbound socket; (b) a fake peer with a registered session key '
                'delivers signed ANNOUNCE/CHUNK/REQUEST/ACK messages whose manifests carry duplicate / zero share indices, threshold 0/255, 255 shards, expired or far-future expiry, huge TTLs, '
                'plus type/payload mismatches, garbage and arbitrary handshake keys, interleaved with ticks; (c) control requests with adversarial OUT paths, manifests, lengths, TTLs, long '
                'lines and raw bytes under several stream caps. Any sanitizer report, any exception leaving a handler (std::terminate on a daemon thread), any hang, or a failed liveness probe '
                '(PING unanswered, benign peer not served) is a violation.',
- 'level_note': 'Crashes abort the worker: the runner leaves crash.tape and the driver derives the signature from the sanitizer / terminate message on replay (not shrunk). Data poisoning (a bogus '
+ 'level_note': 'Black-box part (C35_hyp.py): sequences of up to 8 steps against one real sanitizer-built daemon per worker; every step is a control request or a transport '
+               'connection (up to a valid handshake + signed REQUEST) that leaves by reading, closing or resetting (RST) at a generated point, 1..4 at once; after every step the process must '
+               'still run, answer PING and accept transport connections, with no sanitizer report in its log. Timing-dependent: a failing sequence is kept as found when it does not reproduce while shrinking. '
+               'Crashes abort the worker: the runner leaves crash.tape and the driver derives the signature from the sanitizer / terminate message on replay (not shrunk). Data poisoning (a bogus '
                'manifest overriding records for a held chunk) is not judged. PAYLOAD-LENGTH values above 256 MiB are only generated while a stream cap is configured (with the cap disabled the '
                'request-level exception guard is what protects the daemon; an allocation of 2^64 bytes would be reported by ASan itself rather than thrown).',
  'assumptions': ['handlers are invoked on the harness thread (transport handler through NodeTestAccess, inbound connection through adopt_inbound_socket); the control server runs its own accept thread',
                  'endpoints in generated announces are empty or closed loopback ports, so no case waits on the network'],
  'watchdog_s': 120,
- 'tiers': {'quick': [rc(400)],
-           'thorough': [rc(6000, W), fuzz(300, 8, max_len=8 + 16 * 14)]}}
+ 'extra_targets': ['build/bin/eph'],
+ 'replay_cmd': ['{ROOT}/harness/C35_hyp.py', '--replay', '{path}'],
+ 'tiers': {'quick': [rc(400),
+                     script(['{ROOT}/harness/C35_hyp.py', '--cases', '96', '--workers', '4'], name='hyp', label='Hypothesis black-box (real eph serve, abusive clients)', timeout_s=900)],
+           'thorough': [rc(6000, W), fuzz(300, 8, max_len=8 + 16 * 14),
+                        script(['{ROOT}/harness/C35_hyp.py', '--cases', '1600', '--workers', '8'], name='hyp', label='Hypothesis black-box (real eph serve, abusive clients)', timeout_s=3600)]}}
